@@ -565,3 +565,92 @@ def interproc_guarded(F, fn, site_bb, pred, pass_values, depth=3, _seen=None):
         if not ok:
             return False, "caller %s of %s: %s" % (short(cfn), short(fn), why)
     return True, "all %d callers of %s guarded" % (len(callers), short(fn))
+
+
+# ---------------------------------------------------------------------------
+# LOCK — critical sections of std::sync::Mutex guards
+
+
+class Section:
+    """critical section of one MutexGuard local"""
+    def __init__(self, body, guard_local, acquire_bb, start_bb, mutex_tokens):
+        self.body = body
+        self.guard = guard_local
+        self.acquire = acquire_bb
+        self.start = start_bb
+        self.mutex_tokens = mutex_tokens
+        # blocks whose terminator drops the guard (normal or moved-out)
+        self.drops = [b for b in range(body.n) if body.term(b)[0] == "drop" and body.term(b)[1][0] == guard_local and not body.term(b)[1][1]]
+        inside = body.reach([start_bb], avoid=[])
+        # blocks reachable from the start without passing a drop of the guard; drop blocks themselves are inside
+        seen = set()
+        st = [start_bb]
+        seen.add(start_bb)
+        while st:
+            b = st.pop()
+            if b in self.drops:
+                continue
+            for s in body.succ[b]:
+                if s not in seen:
+                    seen.add(s)
+                    st.append(s)
+        self.blocks = seen
+
+
+def mutex_sections(body, field_pred=None):
+    """all critical sections opened by Mutex::lock (+unwrap/expect) in a body"""
+    out = []
+    for c in body.calls:
+        if c.indirect or not (c.decl.endswith("sync::Mutex::<T>::lock") or c.decl.endswith("sync::poison::Mutex::<T>::lock")
+                              or c.decl.endswith("Mutex::<T>::lock")):
+            continue
+        mtk = tokens(body.origin(c.args[0]))
+        if field_pred and not field_pred(mtk):
+            continue
+        # the guard local: dest of unwrap/expect applied to the lock result (or the result itself)
+        res_local = c.dest[0]
+        guard = None
+        start = None
+        for c2 in body.calls:
+            if c2.indirect or not c2.args:
+                continue
+            if c2.decl.endswith("::unwrap") or c2.decl.endswith("::expect"):
+                pl = op_place(c2.args[0])
+                if pl is not None and pl[0] == res_local:
+                    guard = c2.dest[0]
+                    start = c2.target
+        if guard is None:
+            continue
+        out.append(Section(body, guard, c.bb, start, mtk))
+    return out
+
+
+def guard_field_stores(body, sec):
+    """stores through the guard:  (bb, idx, field name, value origin)"""
+    out = []
+    # locals holding &mut *guard
+    derefs = set()
+    for c in body.calls:
+        if not c.indirect and (c.decl.endswith("DerefMut::deref_mut") or c.decl.endswith("Deref::deref")) and c.args:
+            o = body.origin(c.args[0])
+            pl = op_place(c.args[0])
+            base = None
+            if pl is not None:
+                # &mut guard is usually a temp: follow one ref
+                for d in body.defs.get(pl[0], ()):
+                    if d[0] == "assign" and d[4][0] == "ref" and d[4][2][0] == sec.guard:
+                        base = sec.guard
+                if pl[0] == sec.guard:
+                    base = sec.guard
+            if base is not None:
+                derefs.add(c.dest[0])
+    for b in sorted(sec.blocks):
+        for i, s in enumerate(body.stmts(b)):
+            if s[0] != "=":
+                continue
+            pl = s[1]
+            if pl[0] in derefs and pl[1] and pl[1][0] == "*":
+                flds = [p[2] for p in pl[1] if isinstance(p, list) and p[0] == "f"]
+                if flds:
+                    out.append((b, i, flds[0], body._rvalue_origin(s[2], 10, frozenset()), body.span_of(s[3])))
+    return out
